@@ -265,7 +265,7 @@ def gen_cases(ctx, quick):
 
 # ----------------------------------------------------------------------------- entry points
 def build(ctx):
-    binary, log = ctx.build_harness("c05_mds.cpp", extra=sp.header_flag())
+    binary, log = ctx.build_harness("c05_mds.cpp", name=sp.harness_name("c05_mds"), extra=sp.header_flag())
     if not binary:
         ctx.broken("harness-build", "harness c05_mds.cpp", "harness does not compile against /repo: " + log[-800:])
     return binary
